@@ -32,7 +32,7 @@ ASSUMPTIONS = [
     "'replace' is only issued on qualitative features (renaming a numeric bound would change the partition)",
     "moving missing values that already sit inside another group is not issued (the API only groups leaders)",
 ]
-BUDGET = {"quick": 640, "thorough": 10000}
+BUDGET = {"quick": 1200, "thorough": 10000}
 DEADLINE_S = {"quick": 230, "thorough": 3300}
 STR_NAN = "__NAN__"
 
